@@ -30,7 +30,7 @@ RULE = (
     "(iv) out-of-range machine ids (>= M, <= -M-1, wrapping -M..-1), (v) "
     "machine_id=None for a multi-machine operation; environment step for (vi) "
     "a job with no operations left (also after the episode is complete), "
-    "(vii) an ineligible machine, (viii) (job, -1) for a multi-machine "
+    "(vii) an ineligible machine (in range, beyond the range, negative other than -1), (viii) (job, -1) for a multi-machine "
     "operation; and, through MultiJobShopGraphEnv, steps naming a finished "
     "job, a machine or a job that does not exist in the current instance. Observers: all chosen feature observers + composite, history, "
     "unscheduled, both rewards, residual graph updater. Oracle: each injected "
@@ -177,7 +177,15 @@ def inject(ctx, w, model, kind, x, y):
         desc = f"env.step(({j},{mm})) for a finished job"
         call = lambda: w.env.step((j, mm))
     elif kind == "env_ineligible":
-        cands = [(j, m) for (j, p) in ready for m in range(n_m) if m not in mach[j][p]]
+        # in-range ineligible ids, ids beyond the range on both sides, and
+        # negative ids other than the -1 marker
+        outside = [n_m, n_m + 3, -2, -3, -n_m - 1, -n_m - 7]
+        cands = [
+            (j, m)
+            for (j, p) in ready
+            for m in list(range(n_m)) + outside
+            if m not in mach[j][p]
+        ]
         if not cands:
             return False
         j, m = cands[x % len(cands)]
